@@ -79,12 +79,42 @@ LINETABLE_SEQS = [
 ]
 
 
-def witnesses(version):
+def generated_seqs(is_lt, zero_ok):
+    """Thorough tier: every one-step table over a grid of line steps x bytecode gaps that brackets every limit of the formats, and every
+    two-step table over a coarser grid (the second step starts where an entry of the first was split or merged)."""
+    D1 = [-700, -300, -257, -256, -255, -254, -130, -129, -128, -127, -126, -2, -1, 1, 2, 126, 127, 128, 129, 253, 254, 255, 256, 300, 381, 700]
+    G1 = [2, 4, 252, 254, 256, 258, 508, 510, 512, 762, 764, 766, 1020, 1022]
+    D2 = [-300, -129, -128, -127, -1, 1, 127, 128, 255, 300]
+    G2 = [2, 254, 256, 510]
+    if zero_ok:
+        D1, D2 = D1 + [0], D2 + [0]
+    out = []
+    base = 1000  # lines stay positive relative to the first line only where the assembler needs it: the table holds signed steps
+    for d in D1:
+        for g in G1:
+            out.append((f"one step of {d:+d} lines after {g} bytes", [(0, 0), (g, d)], g + 4))
+    for d1 in D2:
+        for g1 in G2:
+            for d2 in D2:
+                for g2 in G2:
+                    out.append((f"steps of {d1:+d} after {g1} bytes and {d2:+d} after {g2} more", [(0, 0), (g1, d1), (g1 + g2, d1 + d2)], g1 + g2 + 2))
+    if is_lt:
+        for g in G1:
+            for d in (-300, -128, -1, 1, 127, 300):
+                out.append((f"{g} bytes without a line, then a step of {d:+d}", [(0, 0), (2, None), (2 + g, d)], g + 6))
+                out.append((f"{g} bytes on a line {d:+d} away, then no line", [(0, 0), (2, d), (2 + g, None)], g + 6))
+    return out
+
+
+def witnesses(version, deep=False):
     out = []
     if version >= (3, 10):
-        for name, seq, n in LINETABLE_SEQS:
+        for name, seq, n in LINETABLE_SEQS + (generated_seqs(True, False) if deep else []):
             out.append((name, asm_linetable(seq, n), n))
         return out
+    if deep:
+        for name, seq, n in generated_seqs(False, version < (3, 9)):
+            out.append((name, asm_lnotab(seq, version < (3, 9)), n))
     for name, seq, n in LNOTAB_SEQS:
         out.append((name, asm_lnotab(seq, version < (3, 9)), n))
     if version < (3, 9):
@@ -152,53 +182,87 @@ def evaluator(an: Analysis, m, version):
     return ev
 
 
+def _fold_tables(an, version, ws):
+    """Fold the codec over the tables `ws` under interpreter `version`: (tables with wrong lines, tables written back differently, gap or None)."""
+    from .c10 import find_stages
+    st = find_stages(an)
+    dec, enc = st["decode"], st["encode"]
+    m = dec.module
+    is_lt = version >= (3, 10)
+    reader = read_linetable if is_lt else read_lnotab
+    bad_lines, bad_bytes = [], []
+    for name, tab, n in ws:
+        ev = evaluator(an, m, version)
+        code = Obj({"__cls__": "code", "co_code": bytes(n), "co_lnotab": tab})
+        if is_lt:
+            code["co_linetable"] = tab
+            del code["co_lnotab"]  # (3.10 computes an old-format table for this attribute; a codec that reads it under 3.10 is not decided here)
+        try:
+            mapping = ev.call_method(dec.node, code)
+            lines = mapping.get("offset_to_line") if isinstance(mapping, Obj) else None
+            if not isinstance(lines, dict):
+                return bad_lines, bad_bytes, f"{dec.qual}: the decoded mapping has no offset -> line table the fold can read"
+            why = None
+            for off in range(0, n, 2):
+                want = reader(tab, off)
+                got = lines.get(off, "<no entry>")
+                if got != want or (got is None) != (want is None):
+                    why = f"offset {off} gets line {got!r}, CPython reads {want!r}"
+                    break
+            if why:
+                bad_lines.append(f"{name} ({tab.hex()[:40]}): {why}")
+                continue
+            back = ev.call_method(enc.node, mapping)
+            if not isinstance(back, (bytes, bytearray)):
+                return bad_lines, bad_bytes, f"{enc.qual}: the encoder's result on the witness mapping is not bytes"
+            if bytes(back) != tab:
+                i = next((i for i in range(0, max(len(back), len(tab)), 2) if back[i:i + 2] != tab[i:i + 2]), 0)
+                bad_bytes.append(f"{name}: entry {i // 2} is written as {list(back[i:i + 2])}, CPython wrote {list(tab[i:i + 2])} (table {tab.hex()[:40]})")
+        except BlockOutcome as o:
+            bad_lines.append(f"{name} ({tab.hex()[:40]}): the codec stops at `{norm_src(o.node)[:70]}`")
+        except AnalysisError as ex:
+            return bad_lines, bad_bytes, str(ex)
+        except (ValueError, ArithmeticError, IndexError, KeyError) as ex:
+            bad_lines.append(f"{name} ({tab.hex()[:40]}): the codec raises {type(ex).__name__}: {str(ex)[:60]}")
+        except Exception as ex:  # noqa: BLE001 - a gap of the evaluator, never a verdict
+            return bad_lines, bad_bytes, f"{dec.qual} / {enc.qual}: not evaluable on the witness table '{name}' ({type(ex).__name__}: {ex})"
+    return bad_lines, bad_bytes, None
+
+
+def _fold_chunk(args):
+    repo, version, ws = args
+    from sa import model
+    model.REPO = repo
+    return _fold_tables(Analysis(repo), version, ws)
+
+
 def fold_rule(an: Analysis, rep, rule="R10.F"):
     from .c10 import find_stages
     rep.rule(rule, "the line-table codec folded over witness tables written by CPython's assemblers: every instruction gets CPython's line, and the table is written back byte for byte", 8)
     st = find_stages(an)
     dec, enc = st["decode"], st["encode"]
     m = dec.module
+    # thorough tier of C10 itself: a generated grid of about 2 000 more tables per interpreter version, folded on all cores
+    deep = getattr(rep, "tier", "quick") == "thorough" and getattr(rep, "pid", "") == "C10"
     for version in VERSIONS:
         vs = ".".join(map(str, version))
         is_lt = version >= (3, 10)
-        reader = read_linetable if is_lt else read_lnotab
-        bad_lines, bad_bytes = [], []
-        ws = witnesses(version)
-        for name, tab, n in ws:
-            ev = evaluator(an, m, version)
-            code = Obj({"__cls__": "code", "co_code": bytes(n), "co_lnotab": tab})
-            if is_lt:
-                code["co_linetable"] = tab
-                del code["co_lnotab"]  # (3.10 computes an old-format table for this attribute; a codec that reads it under 3.10 is not decided here)
-            try:
-                mapping = ev.call_method(dec.node, code)
-                lines = mapping.get("offset_to_line") if isinstance(mapping, Obj) else None
-                if not isinstance(lines, dict):
-                    raise AnalysisError(f"{dec.qual}: the decoded mapping has no offset -> line table the fold can read")
-                why = None
-                for off in range(0, n, 2):
-                    want = reader(tab, off)
-                    got = lines.get(off, "<no entry>")
-                    if got != want or (got is None) != (want is None):
-                        why = f"offset {off} gets line {got!r}, CPython reads {want!r}"
-                        break
-                if why:
-                    bad_lines.append(f"{name} ({tab.hex()[:40]}): {why}")
-                    continue
-                back = ev.call_method(enc.node, mapping)
-                if not isinstance(back, (bytes, bytearray)):
-                    raise AnalysisError(f"{enc.qual}: the encoder's result on the witness mapping is not bytes")
-                if bytes(back) != tab:
-                    i = next((i for i in range(0, max(len(back), len(tab)), 2) if back[i:i + 2] != tab[i:i + 2]), 0)
-                    bad_bytes.append(f"{name}: entry {i // 2} is written as {list(back[i:i + 2])}, CPython wrote {list(tab[i:i + 2])} (table {tab.hex()[:40]})")
-            except BlockOutcome as o:
-                bad_lines.append(f"{name} ({tab.hex()[:40]}): the codec stops at `{norm_src(o.node)[:70]}`")
-            except AnalysisError:
-                raise
-            except (ValueError, ArithmeticError, IndexError, KeyError) as ex:
-                bad_lines.append(f"{name} ({tab.hex()[:40]}): the codec raises {type(ex).__name__}: {str(ex)[:60]}")
-            except Exception as ex:  # noqa: BLE001 - a gap of the evaluator, never a verdict
-                raise AnalysisError(f"{dec.qual} / {enc.qual}: not evaluable on the witness table '{name}' ({type(ex).__name__}: {ex})")
+        ws = witnesses(version, deep=deep)
+        if deep:
+            import concurrent.futures as cf
+            import os
+            n_w = max(1, min(16, os.cpu_count() or 1))
+            chunks = [ws[i::n_w] for i in range(n_w)]
+            bad_lines, bad_bytes, gap = [], [], None
+            with cf.ProcessPoolExecutor(max_workers=n_w) as ex:
+                for bl, bb, g in ex.map(_fold_chunk, [(an.prog.repo, version, c) for c in chunks]):
+                    bad_lines += bl
+                    bad_bytes += bb
+                    gap = gap or g
+        else:
+            bad_lines, bad_bytes, gap = _fold_tables(an, version, ws)
+        if gap:
+            raise AnalysisError(gap)
         fmt = "co_linetable" if is_lt else "co_lnotab"
         rep.add(rule, f"{dec.qual}::every witness table decodes to CPython's lines [{vs}]", not bad_lines, loc(m, dec.node),
                 f"{len(ws)} {fmt} tables as the {vs} assembler writes them" if not bad_lines else bad_lines[0] + (f" (+{len(bad_lines) - 1} more)" if len(bad_lines) > 1 else ""))
